@@ -184,6 +184,21 @@ func (fg *FG) call0(st *State, cc *ssa.CallCommon, in ssa.Instruction, resultOf 
 			pkg = callee.Parent().Pkg.Pkg
 		}
 	}
+	if c == nil && len(fg.g.ct.TrustFrame) > 0 {
+		// uncontracted call into a package declared trustframe: assumed empty frame, unconstrained result
+		ppath := ""
+		if callee != nil && callee.Pkg != nil {
+			ppath = callee.Pkg.Pkg.Path()
+		} else if callee != nil && callee.Origin() != nil && callee.Origin().Pkg != nil {
+			ppath = callee.Origin().Pkg.Pkg.Path()
+		} else if cc.IsInvoke() && cc.Method.Pkg() != nil {
+			ppath = cc.Method.Pkg().Path()
+		}
+		if ppath != "" && fg.g.ct.TrustFrame[ppath] && !(callee != nil && fg.g.inRepo(callee)) {
+			c = &Contract{Kind: "func", Key: ckey, Assumed: true, ModGiven: true, FuncTypes: map[string]string{}, Loops: map[int][]Clause{}, Steps: map[int][]Clause{}, Pkg: "", File: "trustframe " + ppath}
+			fg.usedAssumed["trustframe:"+ckey] = true
+		}
+	}
 	if c == nil {
 		if callee != nil && callee.Blocks != nil && fg.g.inRepo(callee) && fg.g.canInline(callee) {
 			var bindings []Val
